@@ -17,7 +17,10 @@ MCSeeds == <<
   \* 5: every rule-parameter list
   [todo |-> <<Tk("A"), Nt("rule_params"), Tk(":"), Tk("'a'"), Tk(";")>>, n |-> NParams, zr |-> {}, dev |-> {}],
   \* 6: the texts the self-hosted grammar adds: no rule at all
-  [todo |-> <<Sr(Nt("import_or_reference_stm"), 1)>>, n |-> 2, zr |-> {}, dev |-> {"TxNoRulesOk"}]
+  [todo |-> <<Sr(Nt("import_or_reference_stm"), 1)>>, n |-> 2, zr |-> {}, dev |-> {"TxNoRulesOk"}],
+  \* 7: a rule reference (each representative name) followed by repeat modifiers
+  [todo |-> <<Tk("A"), Tk(":"), Tk("x"), Tk("+="), Nt("rule_ref"), Nt("repeat_modifiers"), Tk(";")>>,
+   n |-> 1, zr |-> {}, dev |-> {}]
 >>
 NoDev   == {}
 EnvDev  == IF IOEnv.VT_DEV = "" THEN {} ELSE {IOEnv.VT_DEV}
